@@ -114,13 +114,39 @@ class Tables:
         fn = self.c.anchor('C01.R0', 'oal_compiler::inference::tag')
         ctx = Pos(fn)
         rows = []
+
+        def leaves(e, anc):
+            """value leaves of a branch: through block tails, match arms and if branches"""
+            if e is None:
+                return
+            if e['k'] == 'block':
+                if e['expr'] is not None:
+                    yield from leaves(e['expr'], anc + ((e, ('tail',)),))
+            elif e['k'] == 'match' and e.get('src') == 'Normal':
+                for arm in e['arms']:
+                    yield from leaves(arm['body'], anc + ((e, ('arm', arm, e)),))
+            elif e['k'] == 'if':
+                yield from leaves(e['then'], anc + ((e, ('then', e)),))
+                yield from leaves(e.get('else'), anc + ((e, ('else', e)),))
+            else:
+                yield e, anc
         for ks, then, _ in self.dispatch(fn):
+            found = False
             for e, anc in hir_walk(then):
                 if e['k'] == 'call' and (callee_def(e) or '').endswith('set_tag') and len(e['args']) == 2:
+                    found = True
                     g = self.gk(ctx.guards(anc))
                     for ts, g2 in self.tag_values(ctx, e['args'][1], g):
                         for kd in ks:
                             rows.append((kd, g2, ts))
+            if not found:
+                # compute-then-set: the branch yields `Some(tag)` and one set_tag follows the dispatch
+                for e, anc in leaves(then, ()):
+                    if e['k'] == 'call' and variant_of(e['f']) == 'Some' and e['args']:
+                        g = self.gk(ctx.guards(anc))
+                        for ts, g2 in self.tag_values(ctx, e['args'][0], g):
+                            for kd in ks:
+                                rows.append((kd, g2, ts))
         return rows
 
     def tag_values(self, ctx, b, g, depth=0):
@@ -340,6 +366,15 @@ class Tables:
                                 break
                             scr = s2[1]
                             hops += 1
+                        if scr['k'] == 'call' and scr['f'].get('res') == 'def':
+                            # the table moved into a private helper (`meta_expected_tag(meta.kind())`): its body is the match
+                            hfn = self.f.fns.get(callee_id(scr))
+                            if hfn is not None and hfn.hir and hfn.crate == fn.crate:
+                                body = hfn.hir['body']
+                                while body is not None and body['k'] == 'block' and not body['stmts']:
+                                    body = body['expr']
+                                if body is not None and body['k'] == 'match':
+                                    scr = body
                         if scr['k'] == 'match':
                             src = ('arm', scr) + tuple(src[2:])
                     if src and src[0] == 'arm' and src[1]['k'] == 'match':
